@@ -7,6 +7,7 @@ from props import shared
 
 PID = "C01"
 LEAN_MODULES = ["BemppVerif.Props.C01", "BemppVerif.Props.C01Pairs", "BemppVerif.Gen.AsmMatch", "BemppVerif.Lemmas.KernelCalculus"]
+LEAN_MODULES += shared.CTOR_MODULES
 N = "BemppVerif.C01."
 THEOREMS = []
 PARTIAL = {
@@ -22,6 +23,7 @@ TRUSTED = [
     "configuration), by differential comparison of the singular index/offset vectors, and by comparing the REAL assembled "
     "dense matrix (polynomial kernel injected) with the model evaluated in exact rational arithmetic (driver asmdense)",
     "classical analysis not formalised: Calderón identities, convergence of Gauss / Sauter-Schwab quadrature",
+    shared.CTOR_TRUSTED,
 ]
 ASSUMPTIONS = ["NoDupElems: two distinct elements never have the same three vertices",
                "oracle tolerances calibrated on the repaired tree (see props/c01_oracle.py)"]
@@ -50,6 +52,9 @@ def generate(ctx):
                    + shared.asm_theorems("regular_matches", "singular_matches", "identity_matches", "hyp_regular", "hyp_singular")
                    + shared.KERNEL_FACTS["laplace"] + shared.CALCULUS["laplace"]
                    + ["BemppVerif.C12.vertex_adjacent_exact", "BemppVerif.C12.duffy_count"])
+    info.update(shared.gen_ctors()[0])
+    THEOREMS.extend(shared.ctor_theorems('laplace_boundary')
+                    + [t for t in shared.CTOR_SPEC if t.split('.')[-1] in ('hypersingular_uses_single_layer_kernel', 'singular_part_and_dtype')])
     return info
 
 
